@@ -42,16 +42,36 @@ import (
 type ccase struct {
 	size int
 	plan []string
+	// streams > 0 (C05): this many responses are open at once; each backend sends three chunks and
+	// produces the next one only after the proxy has seen the previous one in the upload
+	streams int
 }
+
+var prop = flag.String("prop", "C06", "C06|C05")
 
 var cases []ccase
 
 func (c ccase) String() string {
+	if c.streams > 0 {
+		return fmt.Sprintf("%d lock-step streams open at once, chunks of %d bytes", c.streams, c.size)
+	}
 	return fmt.Sprintf("response body %d bytes, upload plan %v", c.size, c.plan)
 }
 
 func build(tier string) {
 	cases = nil
+	if *prop == "C05" {
+		ns := []int{1, 2, 4, 17, 24}
+		if tier == "thorough" {
+			ns = []int{1, 2, 3, 4, 8, 16, 17, 24, 40}
+		}
+		for _, n := range ns {
+			for _, sz := range []int{16, 5000} {
+				cases = append(cases, ccase{size: sz, streams: n})
+			}
+		}
+		return
+	}
 	acts := []string{"ok", "503after", "503early", "hangafter", "hangmid", "reset"}
 	sizes := []int{10, 4097, 100000}
 	if tier == "thorough" {
@@ -59,12 +79,12 @@ func build(tier string) {
 	}
 	for _, sz := range sizes {
 		for _, a := range acts {
-			cases = append(cases, ccase{sz, []string{a}})
+			cases = append(cases, ccase{size: sz, plan: []string{a}})
 			if a == "ok" {
 				continue
 			}
 			for _, b := range acts {
-				cases = append(cases, ccase{sz, []string{a, b}})
+				cases = append(cases, ccase{size: sz, plan: []string{a, b}})
 				if b == "ok" {
 					continue
 				}
@@ -72,7 +92,7 @@ func build(tier string) {
 					if tier != "thorough" && sz == 100000 && c != "ok" && c != "hangafter" {
 						continue
 					}
-					cases = append(cases, ccase{sz, []string{a, b, c}})
+					cases = append(cases, ccase{size: sz, plan: []string{a, b, c}})
 				}
 			}
 		}
@@ -100,6 +120,8 @@ type rig struct {
 	attempts map[string][]*attempt
 	plans    map[string]ccase
 	listed   map[string]int
+	flushed  map[string]int // lock-step streams: chunks the backend has written
+	stalled  map[string]int // chunk the backend gave up waiting on
 }
 
 func binDir() string {
@@ -128,8 +150,18 @@ func payload(id string, n int) []byte {
 	return b
 }
 
+func streamMarker(id string, k int) string { return fmt.Sprintf("<<%s/%d>>", id, k) }
+
+func streamChunk(id string, k, n int) string {
+	m := streamMarker(id, k)
+	if n > len(m) {
+		return strings.Repeat(".", n-len(m)) + m
+	}
+	return m
+}
+
 func startRig() (*rig, error) {
-	r := &rig{wake: make(chan struct{}, 1), attempts: map[string][]*attempt{}, plans: map[string]ccase{}, listed: map[string]int{}}
+	r := &rig{wake: make(chan struct{}, 1), attempts: map[string][]*attempt{}, plans: map[string]ccase{}, listed: map[string]int{}, flushed: map[string]int{}, stalled: map[string]int{}}
 	var err error
 	r.dir, err = os.MkdirTemp("", "bboxagent-home-")
 	if err != nil {
@@ -161,7 +193,7 @@ func startRig() (*rig, error) {
 		return nil, err
 	}
 	// warm up: one request with a clean upload
-	res := r.run("warm", ccase{10, []string{"ok"}}, 10*time.Second)
+	res := r.run("warm", ccase{size: 10, plan: []string{"ok"}}, 10*time.Second)
 	if res == nil || len(res) == 0 || !res[len(res)-1].complete {
 		r.stop()
 		return nil, fmt.Errorf("the agent did not serve the warm-up request")
@@ -204,6 +236,40 @@ func (r *rig) serveBackend() {
 				r.mu.Lock()
 				p := r.plans[id]
 				r.mu.Unlock()
+				if p.streams > 0 {
+					fmt.Fprintf(c, "HTTP/1.1 200 OK\r\nTransfer-Encoding: chunked\r\nContent-Type: application/octet-stream\r\nX-Case: %s\r\n\r\n", id)
+					for k := 1; k <= 3; k++ {
+						chunk := streamChunk(id, k, p.size)
+						fmt.Fprintf(c, "%x\r\n%s\r\n", len(chunk), chunk)
+						r.mu.Lock()
+						r.flushed[id] = k
+						r.mu.Unlock()
+						// lock-step: go on only once the proxy has seen this chunk
+						ok := false
+						for w := 0; w < 3000 && !ok; w++ {
+							r.mu.Lock()
+							for _, a := range r.attempts[id] {
+								// without its first byte: the serialiser's one-byte probe puts the very first byte
+								// of a response body into an HTTP chunk of its own
+								if bytes.Contains(a.body, []byte(streamMarker(id, k)[1:])) {
+									ok = true
+								}
+							}
+							r.mu.Unlock()
+							if !ok {
+								time.Sleep(5 * time.Millisecond)
+							}
+						}
+						if !ok {
+							r.mu.Lock()
+							r.stalled[id] = k
+							r.mu.Unlock()
+							break
+						}
+					}
+					io.WriteString(c, "0\r\n\r\n")
+					continue
+				}
 				body := payload(id, p.size)
 				fmt.Fprintf(c, "HTTP/1.1 200 OK\r\nContent-Length: %d\r\nX-Case: %s\r\nX-Backend: yes\r\n\r\n", len(body), id)
 				c.Write(body)
@@ -278,9 +344,23 @@ func (r *rig) serveProxy() {
 					r.mu.Unlock()
 					switch act {
 					case "ok", "503after", "hangafter":
-						b, err := io.ReadAll(req.Body)
+						// read as it arrives: what has been seen so far is visible to the lock-step backends
+						buf := make([]byte, 32<<10)
+						var err error
+						for {
+							var n int
+							n, err = req.Body.Read(buf)
+							if n > 0 {
+								r.mu.Lock()
+								a.body = append(a.body, buf[:n]...)
+								r.mu.Unlock()
+							}
+							if err != nil {
+								break
+							}
+						}
 						r.mu.Lock()
-						a.body, a.complete = b, err == nil
+						a.complete = err == io.EOF
 						r.mu.Unlock()
 						if act == "hangafter" {
 							return
@@ -399,6 +479,9 @@ func eval(tier string, i int) vx.Exec {
 	}
 	c := cases[i]
 	seq++
+	if c.streams > 0 {
+		return evalStreams(c, i)
+	}
 	id := fmt.Sprintf("c%d-%d-%d", os.Getpid(), i, seq)
 	as := theRig.run(id, c, 15*time.Second)
 	var obs []string
@@ -441,10 +524,72 @@ func eval(tier string, i int) vx.Exec {
 	return x
 }
 
+func evalStreams(c ccase, i int) vx.Exec {
+	var x vx.Exec
+	x.Nontrivial = true
+	r := theRig
+	ids := make([]string, c.streams)
+	r.mu.Lock()
+	for k := range ids {
+		ids[k] = fmt.Sprintf("s%d-%d-%d-%d", os.Getpid(), i, seq, k)
+		r.plans[ids[k]] = c
+	}
+	r.pending = append(r.pending, ids...)
+	r.mu.Unlock()
+	select {
+	case r.wake <- struct{}{}:
+	default:
+	}
+	deadline := time.Now().Add(40 * time.Second)
+	done := 0
+	for time.Now().Before(deadline) {
+		done = 0
+		gaveUp := 0
+		r.mu.Lock()
+		for _, id := range ids {
+			as := r.attempts[id]
+			if len(as) > 0 && as[len(as)-1].complete {
+				done++
+			}
+			if r.stalled[id] > 0 {
+				gaveUp++
+			}
+		}
+		r.mu.Unlock()
+		if done+gaveUp == len(ids) {
+			break
+		}
+		time.Sleep(10 * time.Millisecond)
+	}
+	r.mu.Lock()
+	defer r.mu.Unlock()
+	stalled, never := 0, 0
+	for _, id := range ids {
+		if k := r.stalled[id]; k > 0 {
+			stalled++
+			if len(x.Violations) < 2 {
+				x.Violations = append(x.Violations, fmt.Sprintf("STALL: with %d responses open at once, a backend flushed chunk %d of its response and the proxy had not seen it 15 s later (%d-byte chunks); the agent relays a flushed chunk only after other responses end", c.streams, k, c.size))
+			}
+		} else if r.flushed[id] == 0 {
+			never++
+		}
+	}
+	x.Obs = fmt.Sprintf("%s: %d of %d completed, %d stalled, %d never reached the backend", c, done, len(ids), stalled, never)
+	if never > 0 && stalled == 0 {
+		x.Violations = append(x.Violations, fmt.Sprintf("NEVER: %d of %d simultaneously listed requests never reached the backend within 40 s", never, len(ids)))
+	}
+	if len(x.Violations) > 0 {
+		// the agent may be wedged with open uploads: start afresh for the next case
+		theRig.stop()
+		theRig = nil
+	}
+	return x
+}
+
 func main() {
 	flag.Parse()
-	en := &vx.Enum{Property: "C06", Name: "bboxagent",
-		Rule: "cases = response size {10, 4097, 100000} (thorough: 8 sizes up to 1 MiB) x upload plan: every sequence of up to 3 proxy actions over {ok, 503 after the body, 503 before the body, hang up after the body, hang up mid-body, reset mid-body} ending at the first ok (quick: thinned third action for the largest size); each through the real agent process and its real net/http transport; all cases are distinct and non-trivial",
+	en := &vx.Enum{Property: *prop, Name: "bboxagent-" + strings.ToLower(*prop),
+		Rule: map[bool]string{true: "cases = N lock-step streaming responses open at once, N in {1,2,4,17,24} (thorough: up to 40) x chunk size {16, 5000}: each backend sends three chunks and waits for the proxy to see each one before the next; through the real agent process and transport; all cases are distinct and non-trivial", false: ""}[*prop == "C05"] + map[bool]string{true: "", false: "cases = response size {10, 4097, 100000} (thorough: 8 sizes up to 1 MiB) x upload plan: every sequence of up to 3 proxy actions over {ok, 503 after the body, 503 before the body, hang up after the body, hang up mid-body, reset mid-body} ending at the first ok (quick: thinned third action for the largest size); each through the real agent process and its real net/http transport; all cases are distinct and non-trivial"}[*prop == "C05"],
 		Init: func(tier string) {
 			build(tier)
 			if flag.Lookup("worker").Value.String() != "true" {
